@@ -49,11 +49,17 @@ def make_genome(sc):
         for chrom, lst in per.items():
             s = list(genome[chrom])
             for pos, seq in lst:
+                if seq.startswith("@lower:"):
+                    continue
                 if pos < 0:
                     seq = seq[-pos:]
                     pos = 0
                 seq = seq[:max(0, len(s) - pos)]
                 s[pos:pos + len(seq)] = seq
+            for pos, seq in lst:
+                if seq.startswith("@lower:"):
+                    n = int(seq.split(":")[1])
+                    s[pos:pos + n] = [c.lower() for c in s[pos:pos + n]]
             genome[chrom] = "".join(s)
     return genome
 
